@@ -208,6 +208,7 @@ def c04(run):
 @plan('C05')
 def c05(run):
     engine_step(run, 'rel', ['C05'])
+    engine_step(run, 'dir', ['C05'])
     run.assumptions += ['"a few ulps" is read relative to the measured conditioning of the composed map: 4(1+kappa) ulp (DESIGN 4.6)']
 
 @plan('C06')
